@@ -104,9 +104,12 @@ def check_pair(ctx, case):
     from vp import iso
     ma = rc.require_valid(case["a"])
     mb = rc.require_valid(case["b"])
-    if ma.cls != mb.cls or len(ma.atoms) > 9:
-        raise HarnessError("C01 pair case: same class and n <= 9 required")
-    if not iso.exists(ma, mb):
+    if ma.cls != mb.cls or len(ma.atoms) > 20:
+        raise HarnessError("C01 pair case: same class and n <= 20 required")
+    try:
+        if not iso.exists(ma, mb):
+            return False
+    except iso.BudgetExceeded:
         return False
     cls = ma.cls
     tag = _tag(case["a"])
@@ -189,7 +192,7 @@ def run(ctx):
 
     def check_p(case):
         ma, mb = rc.model(case["a"]), rc.model(case["b"])
-        if ma.cls != mb.cls or len(ma.atoms) > 9:
+        if ma.cls != mb.cls or len(ma.atoms) > 20:
             ctx.exclude("pair-not-comparable")
             return
         iso_found = check_pair(ctx, case)
